@@ -440,26 +440,35 @@ theorem dropWhile_ne_nil_of_exists {p : Char → Bool} (a : Str) (h : ∃ c ∈ 
 theorem hintAhead_code (a Y : Str) (ha : a ≠ []) (hm : noM13 a = true)
     (ht : ∀ x, a.getLast? = some x → isSpacePy x = false) (hY : SafeTail Y) :
     hintAhead (a ++ Y) = false := by
-  have hex : ∃ c ∈ a, isSpaceRe c = false := by
+  have hex : ∃ c ∈ a, isSpacePy c = false := by
     obtain ⟨x, hx⟩ : ∃ x, a.getLast? = some x := by
       cases h : a.getLast? with
       | none => simp at h; exact absurd h ha
       | some x => exact ⟨x, rfl⟩
-    exact ⟨x, List.mem_of_getLast? hx, not_isSpacePy_of x (ht x hx)⟩
+    exact ⟨x, List.mem_of_getLast? hx, ht x hx⟩
   unfold hintAhead
   rw [dropWhile_append_of_exists a Y hex]
   exact no_m14_prefix _ Y (dropWhile_ne_nil_of_exists a hex)
     (noM13_of_infix hm (List.dropWhile_suffix _).isInfix) hY
 
-theorem dropWhile_spaces (n : Nat) (R : Str) (hR : ∀ c, R.head? = some c → isSpaceRe c = false) :
-    (List.replicate n ' ' ++ R).dropWhile isSpaceRe = R := by
+theorem dropWhile_spaces_gen (p : Char → Bool) (hp : p ' ' = true) (n : Nat) (R : Str)
+    (hR : ∀ c, R.head? = some c → p c = false) :
+    (List.replicate n ' ' ++ R).dropWhile p = R := by
   induction n with
   | zero =>
     cases R with
     | nil => rfl
     | cons c t => simp [List.dropWhile_cons, hR c rfl]
   | succ n ih =>
-    rw [List.replicate_succ, List.cons_append, List.dropWhile_cons_of_pos (by decide), ih]
+    rw [List.replicate_succ, List.cons_append, List.dropWhile_cons_of_pos hp, ih]
+
+theorem dropWhile_spaces (n : Nat) (R : Str) (hR : ∀ c, R.head? = some c → isSpacePy c = false) :
+    (List.replicate n ' ' ++ R).dropWhile isSpacePy = R :=
+  dropWhile_spaces_gen isSpacePy (by decide) n R hR
+
+theorem dropWhile_spaces_re (n : Nat) (R : Str) (hR : ∀ c, R.head? = some c → isSpaceRe c = false) :
+    (List.replicate n ' ' ++ R).dropWhile isSpaceRe = R :=
+  dropWhile_spaces_gen isSpaceRe (by decide) n R hR
 
 theorem isolatedRest_isolated (n : Nat) (L : Str) :
     isolatedRest (List.replicate n ' ' ++ (m14 ++ L)) = some L := by
@@ -476,19 +485,19 @@ theorem suffix_getLast? {a s : Str} (h : a <:+ s) (ha : a ≠ []) : a.getLast? =
 /-- The marker is not in sight, white space skipped, from the beginning of a piece of code. -/
 theorem m13_ahead_code (a Y : Str) (ha : a ≠ []) (hm : noM13 a = true)
     (ht : ∀ x, a.getLast? = some x → isSpacePy x = false) (hY : SafeTail Y) :
-    m13.isPrefixOf ((a ++ Y).dropWhile isSpaceRe) = false := by
-  have hex : ∃ c ∈ a, isSpaceRe c = false := by
+    m13.isPrefixOf ((a ++ Y).dropWhile isSpacePy) = false := by
+  have hex : ∃ c ∈ a, isSpacePy c = false := by
     obtain ⟨x, hx⟩ : ∃ x, a.getLast? = some x := by
       cases h : a.getLast? with
       | none => simp at h; exact absurd h ha
       | some x => exact ⟨x, rfl⟩
-    exact ⟨x, List.mem_of_getLast? hx, not_isSpacePy_of x (ht x hx)⟩
+    exact ⟨x, List.mem_of_getLast? hx, ht x hx⟩
   rw [dropWhile_append_of_exists a Y hex]
   exact no_m13_prefix _ Y (dropWhile_ne_nil_of_exists a hex)
     (noM13_of_infix hm (List.dropWhile_suffix _).isInfix) hY
 
 theorem isolatedRest_renderCode (c : CodeLine) (ok : OkCode c) : isolatedRest (renderCode c) = none := by
-  have key : m13.isPrefixOf ((renderCode c).dropWhile isSpaceRe) = false := by
+  have key : m13.isPrefixOf ((renderCode c).dropWhile isSpacePy) = false := by
     by_cases hcode : c.code = []
     · have hh : c.hints = [] := by
         by_cases h : c.hints = []
